@@ -6,5 +6,5 @@ git -C /repo worktree add -q --detach $wt HEAD || exit 2
 git -C $wt apply /verif/seeded/$name/patch.diff || { echo "$name: patch does not apply"; git -C /repo worktree remove --force $wt; exit 2; }
 cd /verif && SYNKIT_REPO=$wt PYTHONPATH=$wt VERIF_EVIDENCE_OUT=/tmp/ev_$name.json timeout 1500 ./check $prop --tier $tier > /tmp/seedrun_$name.log 2>&1; rc=$?
 git -C /repo worktree remove --force $wt
-rm -f /tmp/ev_$name.json
+rm -rf /tmp/ev_$name.json /tmp/ev_$name.json.replays
 echo "$name on $prop/$tier: exit=$rc $(grep -c '^VIOLATION' /tmp/seedrun_$name.log) VIOLATION lines; $(grep 'violations by' /tmp/seedrun_$name.log | head -1 | cut -c1-300)"
